@@ -1,4 +1,4 @@
-import SnaxVerif.Lemmas.DmaResolve
+import SnaxVerif.Lemmas.DmaStrided
 /-!
 # C05 — DMA lowering of a copy moves every element to its layout position
 
@@ -120,6 +120,35 @@ theorem C05_moves_byValue_partial (src dst : MemTy) (rs rd : Rt) (l : Lowered)
   rw [hTD] at h' ⊢
   exact lowerResolved_moves_byValue src.el _ _ l.nested l.lcb l.prog h' hLS hBV (transformDma_consistent h)
 
+/-- The entries over which `expectedMoves` is stated are, position by position, the strides of the source layout and
+of the destination layout (for TSL operands: the attribute itself). -/
+theorem entries_are_layout_strides (bv : Bool) (src dst : MemTy) (rs rd : Rt) (l : Lowered)
+    (h : transformDma bv src dst rs rd = .ok l) :
+    l.nested.map (·.map (·.ss)) = l.tS.ts ∧ l.nested.map (·.map (·.ds)) = l.tD.ts :=
+  resolve_strides (transformDma_resolve h).1
+
+/-- TSL reconstruction, SOURCE: for a `strided<…>` or default-layout source, a dimension with static non-zero stride
+`s` and static non-zero inner tile bounds (any outer bound, static or `?`, any tiling depth) is addressed at
+`x · s · el` bytes by the resolved entries — exactly what the memref's own layout says. -/
+theorem strided_source_address (bv : Bool) (src dst : MemTy) (rs rd : Rt) (l : Lowered)
+    (h : transformDma bv src dst rs rd = .ok l) (hnt : ∀ t, src.layout ≠ .tsl t)
+    (strides : List (Option Nat)) (hstr : extractStrides src = some strides)
+    (d s : Nat) (hs : strides[d]? = some (some s)) (hs0 : s ≠ 0)
+    (es : List Entry) (hd : l.nested[d]? = some es)
+    (b0 : Option Nat) (bs : List Nat) (htb : es.map (·.ss.bound) = b0 :: bs.map some) (hbs : ∀ b ∈ bs, b ≠ 0) (x : Nat) :
+    (tileAddr es x).1 = x * (s * src.el) :=
+  Dma.strided_source_address h hnt hstr hs hs0 hd htb hbs x
+
+/-- TSL reconstruction, DESTINATION (under `EqualTileBounds`). -/
+theorem strided_dest_address (bv : Bool) (src dst : MemTy) (rs rd : Rt) (l : Lowered)
+    (h : transformDma bv src dst rs rd = .ok l) (hnt : ∀ t, dst.layout ≠ .tsl t) (hETB : EqualTileBounds l)
+    (strides : List (Option Nat)) (hstr : extractStrides dst = some strides)
+    (d s : Nat) (hs : strides[d]? = some (some s)) (hs0 : s ≠ 0)
+    (es : List Entry) (hd : l.nested[d]? = some es)
+    (b0 : Option Nat) (bs : List Nat) (htb : es.map (·.ss.bound) = b0 :: bs.map some) (hbs : ∀ b ∈ bs, b ≠ 0) (x : Nat) :
+    (tileAddr es x).2 = x * (s * src.el) :=
+  Dma.strided_dest_address h hnt hETB hstr hs hs0 hd htb hbs x
+
 /-- C05 for `MatchSimpleCopy` (both layouts absent, any rank, static or dynamic shape, any width): the single 1-D
 transfer performs exactly the row-major element moves, in order. FULL. -/
 theorem simpleCopy_moves (src dst : MemTy) (rs rd : Rt) (p : DmaProg) (h : simpleCopy src dst rs rd = .ok p) :
@@ -223,6 +252,18 @@ example :
     check false (i32 [none, none] (.tsl ⟨[[⟨none, none⟩, ⟨some 2, some 2⟩], [⟨none, none⟩, ⟨some 1, some 2⟩]], some 0⟩))
       (i32 [none, none] .none) ⟨1000, [4, 4], [], 0⟩ ⟨5000, [4, 4], [], 0⟩ true true true = some true := by
   decide +kernel
+
+/-- `strided_source_address` / `strided_dest_address`: a default-layout 4x6 source against a destination TSL tiled
+`[2, 2] x [3, 2]`: the reconstructed source TSL of dimension 0 has two depths, and index 3 of it sits at 3·6·4 bytes -/
+example :
+    (match transformDma false (i32 [some 4, some 6] .none)
+        (i32 [some 4, some 6] (.tsl ⟨[[⟨some 12, some 2⟩, ⟨some 2, some 2⟩], [⟨some 4, some 3⟩, ⟨some 1, some 2⟩]], some 0⟩))
+        ⟨1000, [4, 6], [], 0⟩ ⟨5000, [4, 6], [], 0⟩ with
+     | .ok l => (l.nested[0]?.map fun es => (es.length, (tileAddr es 3).1)) == some (2, 72)
+     | .error _ => false) = true := by decide +kernel
+
+/-- `loop_nest_faithful`: four remaining strides -/
+example : wrapLoops [7, 5, 3, 2] = [7, 5, 3, 2] := by decide
 
 /-- `lcb_contiguous` / `lcb_one_burst`: a three-member block is found -/
 example : (lcbMembers [⟨⟨some 4, some 2⟩, ⟨some 4, some 2⟩, 2, 16, 16⟩, ⟨⟨some 1, some 4⟩, ⟨some 1, some 4⟩, 4, 4, 4⟩,
